@@ -36,9 +36,9 @@ import (
 // ---------------------------------------------------------------------------
 
 const (
-	ccHostX   = "alpha-bravo-charlie-delta-echo"   // generated-style hostname registered to X
-	ccHostY   = "foxtrot-golf-hotel-india-juliet"  // registered to Y
-	ccCustomX = "custom.x-corp.net"                // custom hostname bound and registered to X
+	ccHostX   = "alpha-bravo-charlie-delta-echo"  // generated-style hostname registered to X
+	ccHostY   = "foxtrot-golf-hotel-india-juliet" // registered to Y
+	ccCustomX = "custom.x-corp.net"               // custom hostname bound and registered to X
 )
 
 // a call: "<who>.<kind>(<host>[,<servers>])", e.g. X.pub(hx,1) X.rel(hx) Y.pub(hy,12) X.unpub(cx)
